@@ -8,6 +8,7 @@ from vlib.proto import hexs
 # node = (kind, module, name, extra)   kind: c container | l list | L leaf-list | f leaf
 STR, INT, BOOL, ENUM, BITS, IDREF, LREF = "string", "int32", "boolean", "enum", "bits", "idref", "leafref"
 ENUM2, DEC, U8, IDREF2, LREFI = "enum2", "dec64", "uint8", "idref2", "leafref-int"
+IID, IIDR, UN, UB, LBITS = "instid", "instid-req", "union-i8-enum-str", "union-bits-dec", "leafref-bits"
 
 
 def N(kind, mod, name, typ=None, keys=(), kids=(), userord=False, dflt=None, presence=False, always=False):
@@ -39,6 +40,12 @@ YANG_A = """module xpa {
     list l2 { key "k1 k2"; leaf k1 { type string; } leaf k2 { type int32; } leaf v { type string; }
        list l3 {key k; leaf k {type string;} leaf v {type string;} leaf t {type string;}} }
     leaf ref { type leafref { path "../l1/k"; require-instance false; } }
+    leaf iid { type instance-identifier { require-instance false; } }
+    leaf iidr { type instance-identifier; }
+    leaf un { type union { type int8; type enumeration { enum one; enum two; } type string; } }
+    leaf ub { type union { type bits { bit x; bit y; bit z; } type decimal64 { fraction-digits 2; } } }
+    leaf lbits { type leafref { path "../bits"; require-instance false; } }
+    leaf-list bl { type bits { bit x; bit y; bit z; } }
     choice ch { case a { leaf ca { type string; } } case b { container cb { leaf x { type string; } } } }
   }
   container small { leaf a {type string;} leaf-list sl {type string;} leaf t {type string;} }
@@ -61,7 +68,8 @@ SCHEMA1 = [
                                           N("c", A, "in", kids=[N("f", A, "x", STR, always=True), N("f", A, "y", INT), N("f", A, "t", STR, always=True)]), N("f", B, "v", STR)]),
         N("l", A, "l2", keys=["k1", "k2"], kids=[N("f", A, "k1", STR), N("f", A, "k2", INT), N("f", A, "v", STR),
                                                 N("l", A, "l3", keys=["k"], kids=[N("f", A, "k", STR), N("f", A, "v", STR), N("f", A, "t", STR, always=True)])]),
-        N("f", A, "ref", LREF), N("f", A, "ca", STR),
+        N("f", A, "ref", LREF), N("f", A, "iid", IID), N("f", A, "iidr", IIDR), N("f", A, "un", UN), N("f", A, "ub", UB), N("f", A, "lbits", LBITS), N("L", A, "bl", BITS),
+        N("f", A, "ca", STR),
         N("f", B, "v", STR), N("f", B, "s", STR), N("c", B, "ext", kids=[N("f", B, "x", STR, always=True), N("L", B, "z", INT), N("f", B, "t", STR, always=True)]),
     ]),
     N("c", A, "small", kids=[N("f", A, "a", STR, always=True), N("L", A, "sl", STR), N("f", A, "t", STR, always=True)]),
@@ -84,12 +92,14 @@ IDREF_POOL = ["id-a", "id-b", "id-c", "id-m", "xpb:idx"]
 ENUM2_POOL = ["neg", "auto", "big", "next"]
 DEC_POOL = ["1.5", "0.0", "-2.25", "10.0", "3.0", "0.07"]
 U8_POOL = [0, 5, 7, 10, 255]
+UN_POOL = ["5", "-7", "100", "one", "two", "abc", "x y", "300", "1.5", " 5"]      # int8 | enumeration | string
+UB_POOL = ["x z", "y", "x y z", "1.5", "-2.25", "3.0", "10.0"]                       # bits | decimal64
 IDREF2_POOL = ["id-m"]      # derived from ALL bases of the type (F410: libyang accepts an identity derived from SOME base)
 # valid but NON-canonical lexical forms of the typed leaves (and near misses): libyang canonises a string operand by the type of the node it is
 # compared with (set_comp_canonize, F355); the engine does the same through the value models of property C03
 NONCANON_POOL = ["05", "+5", " 5", "5 ", "\t10\n", "-07", "+0", "-0", "007", "0x5", "5.0", "1e1", "2147483648", "256", "+255", "0255",
                  "z x", "x  z", " y", "z y x", "x x", "x w", "y\tx", "id-a", "xpa:id-a", "xpb:id-a", "idx", "xpb:idx", ":id-a", "id-m", "nosuch:id-a",
-                 "1.50", "+1.5", "01.5", "1.500", "1.505", ".5", "3", "3.", "-2.250", " 10.00 ", "-0.0", "+.07", "0.070"]
+                 "1.50", "+1.5", "01.5", "1.500", "1.505", ".5", "3", "3.", "-2.250", " 10.00 ", "-0.0", "+.07", "0.070", "one", " one", "two ", "-007", "+100", "0300"]
 
 
 # ----------------------------------------------------------------------------------------------------------------------
@@ -196,6 +206,18 @@ def yang_facts(texts):
             _, target = lref_path(mod, path, txt)
             tm, tt = leaves[target]
             return type_desc(target, tm, tt, depth + 1)
+        if tname == "union" and depth < 8:
+            # members in the order of the type statements (lyplg_type_store_union tries them in that order); `str` / `enum:` members have no
+            # canonical form but still END the search
+            ms = []
+            for sub_ty in [s for s in subs if s[0] == "type"]:
+                if sub_ty[1] == "string": ms.append("str")
+                elif sub_ty[1] == "enumeration": ms.append("enum:" + ",".join(a.encode().hex() for (k, a, _) in sub_ty[2] if k == "enum"))
+                else:
+                    d = type_desc(path, mod, sub_ty, depth + 1)
+                    if d is None or d.startswith("union:"): return None
+                    ms.append(d)
+            return "union:" + "|".join(ms)
         return None       # string, boolean, enumeration: no canonisation; anything else: not modelled
     for path, (mod, ty) in leaves.items():
         (_, tname, subs) = ty
@@ -211,6 +233,8 @@ def yang_facts(texts):
             txt = [a for (k, a, _) in subs if k == "path"][0]
             if "[" not in txt:
                 out.append("#leafref %s %s" % (path, lref_path(mod, path, txt)[0].encode().hex()))
+        if tname == "instance-identifier":
+            out.append("#inst %s" % path)
         d = type_desc(path, mod, ty)
         if d: out.append("#type %s %s" % (path, d))
     return "\n".join(out) + "\n"
@@ -243,21 +267,56 @@ def gen_value(rng, typ, key=False):
     if typ == U8: return str(rng.choice(U8_POOL))
     if typ == IDREF2: return rng.choice(IDREF2_POOL)
     if typ == LREFI: return str(rng.choice(INT_POOL))
+    if typ == UN: return rng.choice(UN_POOL)
+    if typ == UB: return rng.choice(UB_POOL)
+    if typ == LBITS: return rng.choice(BITS_POOL)
+    if typ in (IID, IIDR): return rng.choice(IID_STATIC)[1]
     raise ValueError(typ)
 
 
-def gen_tree(rng, schema, density=0.7, maxinst=5):
-    """Random instance as XML text; also returns the list of (path-of-names, value) it wrote (for value-aware predicates)."""
-    vals = []
+def iid_quote(v):
+    """predicate value of an instance-identifier: '…' unless the value has a single quote; None = not writable"""
+    if "'" not in v: return "'" + v + "'"
+    if '"' not in v: return '"' + v + '"'
+    return None
 
-    def inst(n, parent_mod, path):
+
+# instance-identifier values that may or may not denote a node of the generated tree (XML form, JSON canonical form)
+IID_STATIC = [("/xpa:c/xpa:l1[xpa:k='nosuch']", "/xpa:c/l1[k='nosuch']"), ("/xpa:c/xpa:l1[xpa:k='nosuch']/xpa:v", "/xpa:c/l1[k='nosuch']/v"),
+              ("/xpa:c/xpa:l1[xpa:k='a']/xpa:in/xpa:y", "/xpa:c/l1[k='a']/in/y"), ("/xpa:c/xpa:l1[xpa:k='a']/xpb:v", "/xpa:c/l1[k='a']/xpb:v"),
+              ("/xpa:small/xpa:sl[.='nosuch']", "/xpa:small/sl[.='nosuch']"), ("/xpa:small/xpa:sl[.='x']", "/xpa:small/sl[.='x']"),
+              ("/xpa:top[xpa:id='77']/xpa:v", "/xpa:top[id='77']/v"), ("/xpa:top[xpa:id='05']", "/xpa:top[id='5']"), ("/xpa:top[xpa:id='+1']/xpa:p/xpa:q", "/xpa:top[id='1']/p/q"),
+              ("/xpa:c/xpb:ext/xpb:z[.='99']", "/xpa:c/xpb:ext/z[.='99']"), ("/xpa:c/xpb:ext/xpb:z[.='5']", "/xpa:c/xpb:ext/z[.='5']"),
+              ("/xpa:c/xpa:l2[xpa:k1='a'][xpa:k2='05']/xpa:v", "/xpa:c/l2[k1='a'][k2='5']/v"), ("/xpa:c/xpa:l2[xpa:k1='a'][xpa:k2='1']/xpa:l3[xpa:k='x']", "/xpa:c/l2[k1='a'][k2='1']/l3[k='x']"),
+              ("/xpa:c/xpa:ca", "/xpa:c/ca"), ("/xpa:c/xpa:d", "/xpa:c/d"), ("/xpa:c/xpa:ll[.='3']", "/xpa:c/ll[.='3']"), ("/xpa:c/xpa:ll[.='+3']", "/xpa:c/ll[.='3']"),
+              ("/xpa:c/xpa:ls[.='x y']", "/xpa:c/ls[.='x y']"), ("/xpa:c", "/xpa:c"), ("/xpa:small", "/xpa:small"), ("/xpa:c/xpa:iid", "/xpa:c/iid")]
+
+
+def gen_tree(rng, schema, density=0.7, maxinst=5):
+    """Random instance as XML text; also returns the list of (path-of-names, value) it wrote (for value-aware predicates).
+    instance-identifier leaves are filled in at the end: paths (with key / value predicates) to nodes of the tree that was generated, and, for the
+    `require-instance false` leaf, also paths that denote nothing."""
+    vals = []
+    ipaths = []        # (XML form, JSON canonical form) of every node written
+    holes = []         # (placeholder, type, path-of-names)
+
+    def ext(ip, n, pmod, pred_x="", pred_j=""):
+        return (ip[0] + "/" + n["mod"] + ":" + n["name"] + pred_x, ip[1] + "/" + (n["mod"] + ":" if n["mod"] != pmod else "") + n["name"] + pred_j)
+
+    def inst(n, parent_mod, path, ip):
         ns = ' xmlns="%s"' % NS[n["mod"]] if n["mod"] != parent_mod else ""
         tag = n["name"]
         p = path + [(n["mod"], n["name"])]
         if n["kind"] == "f":
             if rng.random() > density and not n["always"]: return ""
+            if n["type"] in (IID, IIDR):
+                ph = "\x00%d\x00" % len(holes)
+                holes.append((ph, n["type"], p))
+                ipaths.append(ext(ip, n, parent_mod))
+                return '<%s%s xmlns:xpa="urn:xpa" xmlns:xpb="urn:xpb">%s</%s>' % (tag, ns, ph, tag)
             v = gen_value(rng, n["type"])
             vals.append((p, v))
+            ipaths.append(ext(ip, n, parent_mod))
             return "<%s%s>%s</%s>" % (tag, ns, xml_esc(v), tag)
         if n["kind"] == "L":
             k = rng.choice([0, 1, 2, 3, maxinst]) if rng.random() < 0.8 else 0
@@ -267,12 +326,16 @@ def gen_tree(rng, schema, density=0.7, maxinst=5):
                 if v in seen: continue
                 seen.add(v)
                 vals.append((p, v))
+                q = iid_quote(v)
+                if q is not None: ipaths.append(ext(ip, n, parent_mod, "[.=%s]" % q, "[.=%s]" % q))
                 out += "<%s%s>%s</%s>" % (tag, ns, xml_esc(v), tag)
             return out
         if n["kind"] == "c":
             if rng.random() > density + 0.15 and n["presence"]: return ""
-            body = "".join(inst(k, n["mod"], p) for k in n["kids"])
+            me = ext(ip, n, parent_mod)
+            body = "".join(inst(k, n["mod"], p, me) for k in n["kids"])
             if not body and not n["presence"] and rng.random() < 0.5: return ""
+            ipaths.append(me)
             return "<%s%s>%s</%s>" % (tag, ns, body, tag)
         if n["kind"] == "l":
             k = rng.choice([0, 1, 2, 3, 4, maxinst])
@@ -280,21 +343,45 @@ def gen_tree(rng, schema, density=0.7, maxinst=5):
             if not path and k == 0: k = 1
             seen, out = set(), ""
             for _ in range(k):
-                kv = tuple(gen_value(rng, kid["type"], key=True) for kid in n["kids"] if kid["name"] in n["keys"] and kid["mod"] == n["mod"])
+                keykids = [kid for kid in n["kids"] if kid["name"] in n["keys"] and kid["mod"] == n["mod"]]
+                kv = tuple(gen_value(rng, kid["type"], key=True) for kid in keykids)
                 if kv in seen: continue
                 seen.add(kv)
+                qs = [iid_quote(v) for v in kv]
+                if any(q is None for q in qs): me = None
+                else: me = ext(ip, n, parent_mod, "".join("[%s:%s=%s]" % (n["mod"], kid["name"], q) for kid, q in zip(keykids, qs)),
+                               "".join("[%s=%s]" % (kid["name"], q) for kid, q in zip(keykids, qs)))
+                if me is not None: ipaths.append(me)
+                sub = me if me is not None else ("", "")
                 body, ki = "", 0
                 for kid in n["kids"]:
                     if kid["name"] in n["keys"] and kid["mod"] == n["mod"]:
                         vals.append((p + [(kid["mod"], kid["name"])], kv[ki]))
+                        if me is not None: ipaths.append(ext(sub, kid, n["mod"]))
                         body += "<%s>%s</%s>" % (kid["name"], xml_esc(kv[ki]), kid["name"]); ki += 1
                     else:
-                        body += inst(kid, n["mod"], p)
+                        n0 = len(ipaths)
+                        body += inst(kid, n["mod"], p, sub)
+                        if me is None: del ipaths[n0:]
                 out += "<%s%s>%s</%s>" % (tag, ns, body, tag)
             return out
         raise ValueError(n["kind"])
 
-    return "".join(inst(n, None, []) for n in schema), vals
+    xml = "".join(inst(n, None, [], ("", "")) for n in schema)
+    for (ph, typ, p) in holes:
+        x = rng.random()
+        if typ == IIDR or x < 0.6: xv, jv = rng.choice(ipaths)
+        elif x < 0.9: xv, jv = rng.choice(IID_STATIC)
+        else:
+            # an existing path with the value of its last predicate changed (77 is a valid string and a valid int32)
+            xv, jv = rng.choice(ipaths)
+            if xv.endswith("']") and "xpa:bl[" not in xv:
+                xv, jv = xv[:xv.rindex("='") + 2] + "77']", jv[:jv.rindex("='") + 2] + "77']"
+            else:
+                xv, jv = "/xpa:c/xpa:l1[xpa:k='zz']/xpa:w[.='zz']", "/xpa:c/l1[k='zz']/w[.='zz']"
+        vals.append((p, jv))
+        xml = xml.replace(ph, xml_esc(xv))
+    return xml, vals
 
 
 # ----------------------------------------------------------------------------------------------------------------------
@@ -499,6 +586,16 @@ class Gen:
         if typ == DEC: return r.choice([v + "0", "+" + v, "0" + v if not v.startswith("-") else v, v, v.rstrip("0"), v.rstrip("0").rstrip("."), " " + v + " ", v + "1"])
         if typ == BITS: return r.choice([" ".join(reversed(v.split())), v.replace(" ", "  "), " " + v, v + " x", v, v.replace(" ", "\t")])
         if typ in (IDREF, IDREF2): return r.choice([v, v.split(":")[-1], "xpa:" + v.split(":")[-1], "xpb:" + v.split(":")[-1], ":" + v])
+        if typ == UN:      # int8 | enumeration {one two} | string: the FIRST member that accepts the string canonises it
+            v = v.strip()
+            if v.lstrip("-").isdigit(): return r.choice(["0" + v if not v.startswith("-") else "-0" + v[1:], "+" + v, " " + v, v + "\n", v, v + ".0", "0x" + v])
+            return r.choice([v, " " + v, v + " ", v.upper(), "one", "two", "05"])
+        if typ == UB:      # bits {x y z} | decimal64 fd 2
+            if v[:1] in "xyz": return r.choice([" ".join(reversed(v.split())), v.replace(" ", "  "), " " + v, v + " x", v, v + " w", "z y x"])
+            return r.choice([v + "0", "+" + v, "0" + v if not v.startswith("-") else v, v, v.rstrip("0"), v.rstrip("0").rstrip("."), " " + v + " ", v + "1"])
+        if typ == LBITS: return r.choice([" ".join(reversed(v.split())), v.replace(" ", "  "), " " + v, v + " x", v, v.replace(" ", "\t")])
+        # instance-identifier: the canonical JSON form or a string that is no instance-identifier at all (the engine's canoniser of such a node is the
+        # identity: non-canonical but valid paths are outside the generated strings)
         return v
 
     def yang_bool(self, d, cur):
@@ -517,7 +614,7 @@ class Gen:
             a = self.expr("str", d, cur) if r.random() < 0.6 else self.typed_path()[1]
             return ("fn", "re-match", [a, ("lit", r.choice(RE_POOL))])
         if x < 0.9:
-            t, p = self.typed_path([r.choice([INT, DEC, BITS, IDREF, IDREF2, U8, LREFI, DEC, BITS])])
+            t, p = self.typed_path([r.choice([INT, DEC, BITS, IDREF, IDREF2, U8, LREFI, DEC, BITS, UN, UN, UB, UB, LBITS])])
             op = r.choice(["eq", "eq", "eq", "ne", "lt", "ge"])
             lit = ("lit", self.noncanon_of(t))
             if "'" in lit[1] and '"' in lit[1]: lit = ("lit", "05")
@@ -527,8 +624,25 @@ class Gen:
 
     def deref(self, d, cur):
         r = self.rng
-        arg = self.typed_path([LREF, LREFI])[1] if r.random() < 0.8 else self.named_path(d, cur)
+        x = r.random()
+        arg = (self.typed_path([LREF, LREFI, LBITS])[1] if x < 0.4 else self.typed_path([IID, IIDR])[1] if x < 0.8 else
+               self.typed_path([IID, IIDR, LREF, LREFI, UN, STR, INT])[1] if x < 0.88 else self.named_path(d, cur))
         return ("fn", "deref", [arg])
+
+    def bit_is_set(self, d, cur):
+        """type-directed bit-is-set(): bits leaves, leafref to bits, union with a bits member (realtype = the union: false), leaf-list of bits and
+        unions of those (first-node rule), other terminals; bit names that exist, do not exist, several names, the empty string"""
+        r = self.rng
+        x = r.random()
+        one = lambda: self.typed_path([r.choice([BITS, BITS, LBITS, UB, BITS])])[1]
+        if x < 0.45: arg = one()
+        elif x < 0.7: arg = ("bin", "union", one(), one())
+        elif x < 0.8: arg = absp(st("c"), st(STAR, preds=[bop("or", bop("or", relp(st("bits", "self")), relp(st("bl", "self"))), bop("or", relp(st("lbits", "self")), relp(st("ub", "self"))))]))
+        elif x < 0.9: arg = self.typed_path([r.choice([STR, INT, ENUM, UN, IID, DEC])])[1]
+        else: arg = self.named_path(d, cur)
+        y = r.random()
+        name = ("lit", r.choice(["x", "y", "z"])) if y < 0.7 else ("lit", r.choice(["w", "", "x z", "X", " x", "xy"])) if y < 0.9 else self.expr("str", 1, cur)
+        return ("fn", "bit-is-set", [arg, name])
 
     def _collect(self, nodes):
         for n in nodes:
@@ -753,7 +867,7 @@ class Gen:
             if x < 0.6: return ("fn", "not", [self.expr("bool", d, cur)])
             if x < 0.7: return ("fn", "boolean", [self.expr("any", d, cur)])
             if x < 0.8: return ("fn", r.choice(["contains", "starts-with"]), [self.expr("str", d, cur), self.expr("str", d, cur)])
-            if x < 0.85: return ("fn", "bit-is-set", [self.named_path(d, cur), ("lit", r.choice(["x", "y", "z", "w"]))])
+            if x < 0.85: return self.bit_is_set(d, cur) if r.random() < 0.5 else ("fn", "bit-is-set", [self.named_path(d, cur), ("lit", r.choice(["x", "y", "z", "w"]))])
             if x < 0.88: return self.path(d, cur)[0]
             if x < 0.98: return self.yang_bool(d, cur)
             return ("fn", r.choice(["true", "false"]), [])
@@ -778,7 +892,7 @@ WITNESS_XML = ('<c xmlns="urn:xpa"><s>hello</s><n>5</n><b>true</b><e>two</e><bit
                '<l1><k>b</k><v>2</v><in><x>bx</x></in><v xmlns="urn:xpb">bv</v></l1><l1><k>c</k></l1>'
                '<l2><k1>a</k1><k2>1</k2><v>a1</v><l3><k>x</k><v>1</v></l3><l3><k>y</k><v>2</v></l3></l2>'
                '<l2><k1>a</k1><k2>2</k2><v>a2</v><l3><k>x</k><v>3</v></l3></l2>'
-               '<ref>b</ref><ca>cc</ca><v xmlns="urn:xpb">bvv</v><s xmlns="urn:xpb">bs</s><ext xmlns="urn:xpb"><x>ex</x></ext></c>'
+               '<ref>b</ref><iid xmlns:xpa="urn:xpa">/xpa:c/xpa:l1[xpa:k=\'zz\']/xpa:v</iid><un>5</un><ub>x z</ub><ca>cc</ca><v xmlns="urn:xpb">bvv</v><s xmlns="urn:xpb">bs</s><ext xmlns="urn:xpb"><x>ex</x></ext></c>'
                '<small xmlns="urn:xpa"><a>sa</a><sl>z</sl><sl>y</sl></small>'
                '<top xmlns="urn:xpa"><id>2</id><v>t2</v></top><top xmlns="urn:xpa"><id>1</id><v>t1</v></top>')
 # last top-level node without children (F259)
@@ -810,6 +924,8 @@ WITNESSES = [
     ("F261", 0, fn("floor", bop("div", num(1), num(0)))), ("F261", 0, fn("floor", bop("div", num(0), num(0)))),
     ("F264", 0, fn("substring", lit("12345"), ("neg", bop("div", num(1), num(0))))),
     ("F354", 0, fn("count", fn("deref", absp(C_, st("aref"))))), ("F354", 0, fn("deref", absp(C_, st("aref")))),
+    ("F356", 0, fn("count", fn("deref", absp(C_, st("iid"))))), ("F356", 0, fn("deref", absp(C_, st("iid")))),
+    ("F355", 0, bop("eq", absp(C_, st("un")), lit("05"))), ("F355", 0, bop("eq", absp(C_, st("ub")), lit("z x"))),
     ("F355", 0, bop("eq", absp(C_, st("n")), lit("05"))), ("F355", 0, bop("eq", absp(C_, st("n")), lit(" +5 "))),
     ("F355", 0, bop("eq", absp(C_, st("bits")), lit("z x"))), ("F355", 0, bop("eq", lit("3.0"), absp(C_, st("ll")))),
     ("F355", 0, bop("ne", absp(C_, st("n")), lit("05"))),
